@@ -318,12 +318,79 @@ def scaled_endpoints(draw, own, given, phases, threept):
     return e
 
 
+HE_FLAGS = ["SWL", "WCR", "SWU", "GCR", "SGU", "KRW", "KRO", "KRG", "KRNR"]
+HE_KW = {"SWL": [("SWL", "W")], "WCR": [("SWCR", "W"), ("SOWCR", "W")], "SWU": [("SWU", "W")],
+         "GCR": [("SGCR", "G"), ("SOGCR", "G")], "SGU": [("SGU", "G")], "KRW": [("KRW", "W")], "KRO": [("KRO", "O")],
+         "KRG": [("KRG", "G")], "KRNR": [("KRORW", "W"), ("KRGR", "G")]}
+
+
+def he_keywords(flags, phases):
+    """drainage keywords written for a set of flags (the imbibition keyword is 'I' + name)"""
+    return [k for f in HE_FLAGS if f in flags for (k, p) in HE_KW[f] if p in phases]
+
+
+@st.composite
+def hyst_endpoints(draw, own_d, own_i, flags, phases, ident):
+    """scaled end-points of one cell for the drainage (SATNUM) and the imbibition (IMBNUM) curve.  As for the
+    tables, the two curves of a cell share connate water, the maximum saturations and the maximum relperms, and the
+    critical non-wetting saturation of the imbibition curve is not smaller than that of the drainage curve.
+    Drawn end-points keep 0.01 between the members of a pair that three-point scaling maps to different table
+    saturations (SWL/SWCR, 1-SOWCR/SWU, SGL/SGCR, 1-SOGCR-SWL/SGU): collapsing a table interval to a point makes the
+    scaled curve itself discontinuous there."""
+    d, i = dict(own_d), dict(own_i)
+    gap = MINGAP
+    sep = 100
+    a = draw(st.integers(0, 3500)) if "SWL" in flags else own_d.get("SWL", 0)
+    if "W" in phases:
+        d["SWL"] = i["SWL"] = a
+        if "SWU" in flags:
+            lo = 7000
+            if "WCR" not in flags:
+                lo = max(lo, min(Q, Q - own_d["SOWCR"] + sep), min(Q, Q - own_i["SOWCR"] + sep))
+            d["SWU"] = i["SWU"] = draw(st.integers(lo, Q))
+        if "WCR" in flags:
+            c_d = draw(st.integers(a + sep + gap, d["SWU"] - sep))
+            b_d = draw(st.integers(a + sep, c_d - gap))
+            c_i = draw(st.integers(a + sep + gap, min(c_d, i["SWU"] - sep)))
+            b_i = draw(st.integers(a + sep, c_i - gap))
+            d["SWCR"], d["SOWCR"], i["SWCR"], i["SOWCR"] = b_d, Q - c_d, b_i, Q - c_i
+    if "G" in phases:
+        cap = Q - a
+        r0_d, r0_i = Q - own_d["SOGCR"] - own_d.get("SWL", 0), Q - own_i["SOGCR"] - own_i.get("SWL", 0)
+        if "SGU" in flags:
+            lo = min(cap, 5000)
+            if "GCR" not in flags:
+                lo = max(lo, min(cap, r0_d + sep), min(cap, r0_i + sep))
+            d["SGU"] = i["SGU"] = draw(st.integers(lo, cap))
+        u = d["SGU"]
+        if "GCR" in flags:
+            r_d = draw(st.integers(sep + gap, u - sep))
+            g_d = draw(st.integers(sep, r_d - gap))
+            r_i = draw(st.integers(g_d + gap, u - sep))
+            g_i = draw(st.integers(g_d, r_i - gap))
+            d["SGCR"], d["SOGCR"], i["SGCR"], i["SOGCR"] = g_d, Q - a - r_d, g_i, Q - a - r_i
+    for k in ("KRW", "KRO", "KRG"):
+        if k in flags and k in d:
+            d[k] = i[k] = draw(st.integers(1000, Q))
+    if "KRNR" in flags:
+        if "W" in phases:
+            for e in (d, i):
+                e["KRORW"] = e["KRO"] if e["SWCR"] == e["SWL"] else draw(st.integers(100, e["KRO"]))
+        if "G" in phases:
+            for e in (d, i):
+                e["KRGR"] = e["KRG"] if Q - e["SOGCR"] - a == e["SGU"] else draw(st.integers(100, e["KRG"]))
+    if ident:
+        i = dict(d)
+    return d, i
+
+
 @st.composite
 def case_strategy(draw, tier):
-    mode = draw(st.sampled_from(["unscaled", "unscaled", "identity", "eps", "eps", "eps", "hyst", "hyst", "hyst"]))
+    mode = draw(st.sampled_from(["unscaled", "unscaled", "identity", "eps", "eps", "eps", "hyst", "hyst", "hysteps",
+                                 "hysteps", "hysteps"]))
     phases = draw(st.sampled_from(["OW", "GO", "OWG", "OWG"]))
     nreg = draw(st.integers(1, 3))
-    hyst = mode == "hyst"
+    hyst = mode in ("hyst", "hysteps")
     if hyst and draw(st.integers(0, 3)) > 0:
         nreg = max(nreg, 2)
     regs = draw(regions(phases, nreg, hyst))
@@ -381,6 +448,22 @@ def case_strategy(draw, tier):
             cell["corner"] = draw(st.sampled_from(corner_opts))
             n = draw(st.integers(3, 10 if tier == "quick" else 14))
             cell["hist"] = [draw(st.integers(0, 1000)) for _ in range(n)]
+    if mode == "hysteps":
+        case["threept"] = draw(st.booleans())
+        flags = [f for f in HE_FLAGS if draw(st.integers(0, 2)) > 0]
+        if not case["threept"]:
+            flags = [f for f in flags if f != "KRNR"]
+        if "SWL" in flags:
+            flags += [f for f in ("WCR", "GCR", "SGU") if f not in flags]
+        flags = [f for f in flags if he_keywords([f], phases)]
+        if not flags:
+            flags = ["GCR"] if "G" in phases else ["WCR"]
+        case["flags"] = flags
+        for cell in cells:
+            cell["ident"] = cell["imbnum"] == cell["satnum"] and draw(st.booleans())
+            own_d = ep_of(regs[cell["satnum"] - 1], phases)
+            own_i = ep_of(regs[cell["imbnum"] - 1], phases)
+            cell["ep"], cell["iep"] = draw(hyst_endpoints(own_d, own_i, flags, phases, cell["ident"]))
     return case
 
 
@@ -574,7 +657,10 @@ class C15(Check):
             "table's own end-points written explicitly, two-/three-point), 'eps' (random subset of SWL SWCR SWU "
             "SOWCR SGCR SGU SOGCR KRW KRWR KRO KRORW KRORG KRG KRGR PCW PCG with consistent random per-cell values, "
             "two-/three-point), 'hyst' (EHYSTR model 0..3, IMBNUM, random saturation histories of 3..14 steps "
-            "driven through updateHysteresis).  Non-trivial: a table with >= 5 rows and critical != connate "
+            "driven through updateHysteresis), 'hysteps' (the same histories on ENDSCALE decks whose cells carry "
+            "per-cell drainage and imbibition end-point arrays SWL/ISWL SWCR/ISWCR SOWCR/ISOWCR SWU/ISWU SGCR/ISGCR "
+            "SOGCR/ISOGCR SGU/ISGU KRW/IKRW KRO/IKRO KRG/IKRG KRORW/IKRORW KRGR/IKRGR, two-/three-point; the "
+            "drainage curve is taken from the same deck without hysteresis).  Non-trivial: a table with >= 5 rows and critical != connate "
             "end-points (unscaled/identity), a scaled end-point > 5 % away from the table's (eps), a history with "
             ">= 2 reversals (hyst); distinct by (mode, phases, oil model, row-count classes, keyword set, "
             "three-point, hysteresis model, imbibition==drainage, reversal class).")
@@ -590,7 +676,13 @@ class C15(Check):
         "connate, maximum saturation and maximum relperm, critical non-wetting saturation of the imbibition curve "
         ">= drainage; tables with a plateau in the mobile range of the non-wetting curve are generated (1 in 4) but a "
         "failing Carlson identity on them carries the known-finding key (horizontal shift not unique); saturation histories stay inside the table's saturation range [0, SGU] resp. "
-        "[SWL, 1] for the same reason; no end-point scaling in hysteresis runs; WAG hysteresis not generated",
+        "[SWL, 1] for the same reason; WAG hysteresis not generated",
+        "hysteresis with end-point scaling (mode hysteps): the drainage and the imbibition curve of a cell share SWL, "
+        "SWU, SGU and the maxima KRW/KRO/KRG (imbibition arrays restate the drainage values), ISOWCR >= SOWCR and "
+        "ISGCR >= SGCR; drawn end-points keep 0.01 between SWL/SWCR, 1-SOWCR/SWU, SGL/SGCR, 1-SOGCR-SWL/SGU (a table "
+        "interval collapsed to a point makes the scaled curve itself discontinuous); directional and PC* arrays are "
+        "not generated; 'identical curves' means IMBNUM == SATNUM and every imbibition array equal to its drainage "
+        "array",
         "continuity at a reversal point is checked through the one-sided limit extrapolated from three probes "
         "1e-7 apart and only where those probes lie on one linear piece",
     ]
@@ -679,6 +771,15 @@ class C15(Check):
             nontriv = far
             sig += [case["threept"], sorted(case["given"])]
         else:
+            if mode == "hysteps":
+                labels.append("threept" if case["threept"] else "twopt")
+                for f in case["flags"]:
+                    labels.append("hysteps:" + f)
+                if any(c["iep"] != c["ep"] for c in case["cells"]):
+                    labels.append("hysteps:imb-endpoints!=drain-endpoints")
+                if any(c["ident"] for c in case["cells"]):
+                    labels.append("hysteps:identical")
+                sig += [case["threept"], sorted(case["flags"])]
             labels.append("hyst:model%d" % case["model"])
             nrev = 0
             same = True
@@ -705,13 +806,15 @@ class C15(Check):
         return None if key in ignored else key
 
     def floors(self, tier):
-        return {"nontrivial": 0.2, "mode:unscaled": 0.1, "mode:identity": 0.05, "mode:eps": 0.15, "mode:hyst": 0.15,
+        return {"nontrivial": 0.2, "mode:unscaled": 0.1, "mode:identity": 0.05, "mode:eps": 0.15, "mode:hyst": 0.08,
+                "mode:hysteps": 0.15, "hysteps:imb-endpoints!=drain-endpoints": 0.08, "hysteps:identical": 0.02,
                 "phases:OWG": 0.2, "phases:OW": 0.1, "phases:GO": 0.1, "threept": 0.1, "hyst:imb!=drain": 0.05,
                 "hyst:imb==drain": 0.05, "eps:>5%": 0.1}
 
     def sample_view(self, case):
         v = {k: case[k] for k in ("mode", "phases", "kro3", "threept", "family") if k in case}
         v["given"] = case.get("given")
+        v["flags"] = case.get("flags")
         v["model"] = case.get("model")
         v["rows"] = [[len(r.get("sw", [])), len(r.get("sg", []))] for r in case["regs"]]
         v["cells"] = case["cells"]
@@ -742,6 +845,17 @@ class C15(Check):
 
     # ------------------------------------------------------------ oracle
     def check(self, case, ctx):
+        v = self.check_(case, ctx)
+        if v is not None and v.get("key") is None and case["mode"] == "hysteps" and case["model"] in (0, 1) \
+                and "KRNR" in case["flags"] and v["rule"].startswith("hysteresis: ") \
+                and "recorded reversal" not in v["rule"] and "drainage curve" not in v["rule"]:
+            # signature of a known defect: Carlson's shift is found with twoPhaseSatKrnInv, whose vertical part
+            # (scaledToUnscaledKrn_) knows only the pure KRG/KRO scaling and ignores three-point vertical scaling
+            # (KRGR / KRORW and their imbibition counterparts): the scanning curve misses the reversal point
+            v["key"] = "hysteps-carlson-inverse-ignores-3pt-vertical"
+        return v
+
+    def check_(self, case, ctx):
         mode = case["mode"]
         if mode == "unscaled":
             return self.check_unscaled(case, ctx)
@@ -749,7 +863,7 @@ class C15(Check):
             return self.check_identity(case, ctx)
         if mode == "eps":
             return self.check_eps(case, ctx)
-        return self.check_hyst(case, ctx)
+        return self.check_hyst(case, ctx)          # modes hyst and hysteps
 
     def cell_points(self, case, swl_of_cell, extra_of_cell=None):
         """per cell: list of (corner, s, triple)"""
@@ -1026,12 +1140,15 @@ class C15(Check):
     def check_hyst(self, case, ctx):
         ph = case["phases"]
         model = case["model"]
+        eps = case["mode"] == "hysteps"
         NG = 40
         progs = []
         plans = []
         for ci, c in enumerate(case["cells"]):
             reg = case["regs"][c["satnum"] - 1]
             swco = fsat(reg["sw"][0]) if "W" in ph else 0.0
+            if eps and "W" in ph:
+                swco = fsat(c["ep"]["SWL"])
             corner = c["corner"]
             snmax = 1.0 - swco                     # largest non-wetting saturation of the corner
             # corner coordinate s: Sw (water corner; non-wetting = oil, Sn = 1 - s) or Sg (gas corner; Sn = s)
@@ -1043,7 +1160,7 @@ class C15(Check):
             shy = None
             # histories stay inside the table's saturation range (beyond its last row the drainage curve is flat,
             # i.e. a plateau, where the horizontal shift of the scanning curve is not unique)
-            hmax = snmax if corner == "w" else min(snmax, fsat(reg["sg"][-1]))
+            hmax = snmax if corner == "w" else min(snmax, fsat(c["ep"]["SGU"] if eps else reg["sg"][-1]))
             for h in c["hist"]:
                 sn = hmax * h / 1000.0
                 shy = sn if shy is None else max(shy, sn)
@@ -1065,10 +1182,42 @@ class C15(Check):
                     probes = [shy - k * DELTA for k in (1, 2, 3)]
                 allsn = sns + probes
                 prog.append({"op": "eval", "s": [point(ph, corner, s_of_sn(x), swco) for x in allsn]})
-                plan.append({"sn": sn, "shy": shy, "grid": sns, "probes": probes, "state": st_trip})
+                plan.append({"sn": sn, "shy": shy, "grid": sns, "probes": probes, "state": st_trip, "swco": swco})
             progs.append(prog)
             plans.append(plan)
-        rep = self.run(ctx.P, deck_text(case, family=1, hyst=True), progs)
+        refs = None
+        if not eps:
+            rep = self.run(ctx.P, deck_text(case, family=1, hyst=True), progs)
+        else:
+            # drainage arrays (SATNUM curve) and imbibition arrays ('I' + keyword, IMBNUM curve) per cell
+            kws = he_keywords(case["flags"], ph)
+            darr = {k: [self.ep_text(k, c["ep"][k]) for c in case["cells"]] for k in kws}
+            arrays = dict(darr)
+            arrays.update({"I" + k: [self.ep_text(k, c["iep"][k]) for c in case["cells"]] for k in kws})
+            rep = self.run(ctx.P, deck_text(case, family=1, endscale=True, arrays=arrays, hyst=True), progs)
+            # the drainage curve: the same deck without hysteresis (no SATOPTS/EHYSTR/IMBNUM, drainage arrays only),
+            # evaluated at the grid points and at the reversal saturation of every step
+            rprogs = []
+            for ci, c in enumerate(case["cells"]):
+                corner = c["corner"]
+                pts = []
+                for pl in plans[ci]:
+                    for x in pl["grid"] + [pl["shy"]]:
+                        pts.append(point(ph, corner, (1.0 - x) if corner == "w" else x, pl["swco"]))
+                rprogs.append([{"op": "eval", "s": pts}])
+            rrep = self.run(ctx.P, deck_text(case, family=1, endscale=True, arrays=darr, hyst=False), rprogs)
+            if rrep["hyst"]:
+                return self.V("hysteresis reported active without SATOPTS", rrep["hyst"])
+            refs = []
+            for ci, c in enumerate(case["cells"]):
+                ev = [obs(v) for v in rrep["cells"][ci]["res"][0]["eval"]]
+                k = 0
+                per = []
+                for pl in plans[ci]:
+                    n = len(pl["grid"])
+                    per.append({"grid": ev[k:k + n], "shy": ev[k + n]})
+                    k += n + 1
+                refs.append(per)
         if not rep["hyst"] or not rep["nwhyst"] or rep["pchyst"]:
             return self.V("hysteresis flags differ from SATOPTS HYSTER / EHYSTR .. KR", {k: rep[k] for k in ("hyst", "nwhyst", "pchyst")})
         for ci, c in enumerate(case["cells"]):
@@ -1080,6 +1229,11 @@ class C15(Check):
             drain = (lambda sn: m.krow(1.0 - sn)) if corner == "w" else (lambda sn: m.krg(sn))
             kmax = max(m.krow_) if corner == "w" else max(m.krg_)
             same = self.same_curves(case, c)
+            if eps:
+                swco = fsat(c["ep"]["SWL"]) if "W" in ph else 0.0
+                kmax = c["ep"]["KRO" if corner == "w" else "KRG"] / Q
+                # identical curves: same table and the imbibition arrays restate the drainage arrays
+                same = same and c["ident"]
             rc = rep["cells"][ci]
             if rc["imbnum"] != c["imbnum"] - 1:
                 return self.V("manager reports another IMBNUM region than the deck", [ci, rc["imbnum"], c["imbnum"]])
@@ -1091,6 +1245,10 @@ class C15(Check):
                 shy = pl["shy"]
                 info = {"cell": ci, "satnum": c["satnum"], "imbnum": c["imbnum"], "corner": corner, "step": t,
                         "history_Sn": [p["sn"] for p in plans[ci][:t + 1]], "Shy": shy, "model": model}
+                if eps:
+                    kws = he_keywords(case["flags"], ph)
+                    info.update(threept=case["threept"], drainage={k: self.ep_text(k, c["ep"][k]) for k in kws},
+                                imbibition={"I" + k: self.ep_text(k, c["iep"][k]) for k in kws})
                 if pl["sn"] < shy:
                     reversed_yet = True
                 # the reversal point on record is the largest non-wetting saturation of the history (as handed to
@@ -1106,13 +1264,13 @@ class C15(Check):
                 g = vals[:len(pl["grid"])]
                 pr = vals[len(pl["grid"]):]
                 prevv = None
-                for sn, o in zip(pl["grid"], g):
+                for gi, (sn, o) in enumerate(zip(pl["grid"], g)):
                     v = o[q]
                     if not (-SLACK <= v <= kmax * (1 + 1e-12) + SLACK):       # NaN fails
                         return self.V("hysteresis: non-wetting relperm outside [0, maximum]", dict(info, Sn=sn, got=v))
                     if sn >= shy:
                         # on the drainage curve: until the first reversal, and beyond the historical maximum later
-                        e = drain(sn)
+                        e = refs[ci][t]["grid"][gi][q] if eps else drain(sn)
                         if not (abs(v - e) <= TOL_TABLE * 10):
                             return self.V("hysteresis: non-wetting relperm leaves the drainage curve %s"
                                           % ("before the first reversal" if not reversed_yet else
@@ -1125,7 +1283,10 @@ class C15(Check):
                     if same and model in (0, 1):
                         # Carlson with identical curves: nothing changes, for any quantity
                         s = 1.0 - sn if corner == "w" else sn
-                        exp = expected(m, ph, corner, s, swco)
+                        if eps:
+                            exp = {k: x for k, x in refs[ci][t]["grid"][gi].items() if k in sc}
+                        else:
+                            exp = expected(m, ph, corner, s, swco)
                         r = self.compare_point("hysteresis: Carlson with identical drainage and imbibition curves "
                                                "changes a result", o, exp, sc, TOL_META, dict(info, Sn=sn))
                         if r:
@@ -1141,7 +1302,7 @@ class C15(Check):
                     if abs(f1 - 2 * f2 + f3) <= 1e-13:
                         ctx.label("hyst:continuity-checked")
                         lim = 2 * f1 - f2
-                        e = drain(shy)
+                        e = refs[ci][t]["shy"][q] if eps else drain(shy)
                         if not (abs(lim - e) <= TOL_CONT):
                             return self.V("hysteresis: scanning curve does not start at the drainage value of the "
                                           "reversal point", dict(info, limit_from_below=lim, drainage_at_Shy=e,
